@@ -6,8 +6,12 @@
 package zzsimrt
 
 import (
+	"bytes"
 	"io"
+	"io/fs"
 	"os"
+	"path/filepath"
+	"time"
 )
 
 // ReadFileFunc, when set, serves os.ReadFile calls made by the library.
@@ -33,3 +37,80 @@ func Stdin() io.Reader {
 	}
 	return os.Stdin
 }
+
+// File is what the library gets from Open: the simulated file's content, or the
+// real file when no simulation serves the name.
+type File struct {
+	name string
+	data *bytes.Reader
+	size int64
+	real *os.File
+}
+
+// Open is os.Open through the same seam as ReadFile (the open is the read
+// event: that is when the simulated storage decides what the file holds).
+func Open(name string) (*File, error) {
+	if f := ReadFileFunc; f != nil {
+		if data, err, ok := f(name); ok {
+			if err != nil {
+				return nil, &fs.PathError{Op: "open", Path: name, Err: err}
+			}
+			return &File{name: name, data: bytes.NewReader(data), size: int64(len(data))}, nil
+		}
+	}
+	rf, err := os.Open(name)
+	if err != nil {
+		return nil, err
+	}
+	return &File{name: name, real: rf}, nil
+}
+
+func (f *File) Read(p []byte) (int, error) {
+	if f.real != nil {
+		return f.real.Read(p)
+	}
+	return f.data.Read(p)
+}
+
+func (f *File) Close() error {
+	if f.real != nil {
+		return f.real.Close()
+	}
+	return nil
+}
+
+func (f *File) Name() string { return f.name }
+
+func (f *File) Stat() (fs.FileInfo, error) {
+	if f.real != nil {
+		return f.real.Stat()
+	}
+	return simInfo{f.name, f.size}, nil
+}
+
+// Stat and Lstat ask the storage for the file (a read event like any other).
+func Stat(name string) (fs.FileInfo, error) {
+	if f := ReadFileFunc; f != nil {
+		if data, err, ok := f(name); ok {
+			if err != nil {
+				return nil, &fs.PathError{Op: "stat", Path: name, Err: err}
+			}
+			return simInfo{name, int64(len(data))}, nil
+		}
+	}
+	return os.Stat(name)
+}
+
+func Lstat(name string) (fs.FileInfo, error) { return Stat(name) }
+
+type simInfo struct {
+	name string
+	size int64
+}
+
+func (i simInfo) Name() string       { return filepath.Base(i.name) }
+func (i simInfo) Size() int64        { return i.size }
+func (i simInfo) Mode() fs.FileMode  { return 0o644 }
+func (i simInfo) ModTime() time.Time { return time.Time{} }
+func (i simInfo) IsDir() bool        { return false }
+func (i simInfo) Sys() any           { return nil }
